@@ -64,7 +64,7 @@ type State struct {
 	tblock     []string
 	switches   int
 	noYield    bool
-	switched   bool // set when the current instruction gave up the CPU without completing
+	switched   bool   // set when the current instruction gave up the CPU without completing
 	postYield  bool   // the current thread just released a lock: offer a switch before its next instruction
 	postSusp   []bool // thread was suspended at such a point (nothing pending: its next sync op yields normally)
 	spawned    []Value
